@@ -426,6 +426,20 @@ impl Array4 {
     }
 }
 
+#[cfg(feature = "verif-hooks")]
+impl Array4 {
+    /// Verification hook: (cur_min, num_at_cur_min, aux raw table if any, estimator).
+    #[allow(clippy::type_complexity)]
+    pub(super) fn verif_parts(&self) -> (u8, u32, Option<(u8, u32, Vec<u32>)>, &HipEstimator) {
+        (
+            self.cur_min,
+            self.num_at_cur_min,
+            self.aux_map.as_ref().map(|m| m.verif_raw()),
+            &self.estimator,
+        )
+    }
+}
+
 #[cfg(test)]
 mod tests {
     use super::*;
